@@ -137,6 +137,15 @@ def _resolve_closure_calls(raws, raw):
     n = 0
     for blk in raw["blocks"]:
         t = blk["term"]
+        # `text.parse::<T>()` with a `FromStr for T` of this crate that is new relative to the pinned tree: std's `parse` does nothing but call it
+        if t and t.get("k") == "call" and (t.get("callee") or "").endswith("str::<impl str>::parse") and len(t.get("gargs") or []) == 1 and len(t.get("args") or []) == 1:
+            cand = f"<{t['gargs'][0]} as std::str::FromStr>::from_str"
+            known_ = _KNOWN_FNS[0]
+            if cand in raws and known_ is not None and cand not in known_:
+                t["callee"] = cand
+                t["resolved"] = cand
+                n += 1
+            continue
         if not t or t.get("k") != "call" or not re.search(r"^std::ops::(Fn|FnMut|FnOnce)::call(_mut|_once)?$", t.get("callee") or ""):
             continue
         if t.get("resolved") in raws or not t.get("args"):
@@ -650,7 +659,12 @@ def apply(prog, Body):
         for p in (list(table) if new_fns else []):
             # (helpers keep their own bodies as well — rules may still look at them — with their own new callees inlined)
             b = table[p]
-            new_raw, done = inline_body(raws, known, p, b.raw)
+            raw0 = b.raw
+            if any(bl_["term"] and bl_["term"].get("k") == "call" and (bl_["term"].get("callee") or "").endswith("str::<impl str>::parse") for bl_ in raw0["blocks"]):
+                pre = copy.deepcopy(raw0)
+                if _resolve_closure_calls(raws, pre):
+                    raw0 = pre
+            new_raw, done = inline_body(raws, known, p, raw0)
             if done:
                 # a closure handed to a generic helper (`fn run<F: FnOnce(..)>(.., f: F) { .. f(x) .. }`) is called there through an
                 # unresolved Fn* call; once the helper's body sits in the caller the closure value is in sight, and the call is the
